@@ -225,6 +225,28 @@ def main():
     canon = flags
     runs = run_tail(program, nmfu, stmts, canon, lambda L: [L >= 0, L <= 3])
     rep.coverage["decision_paths_levels_0_3"] = len(runs)
+    # frame: the resolution step may write ProgramData._flags / _options only; it must not modify the flag metadata or the level table in
+    # place (they are shared by every later call: a configuration would then depend on earlier command lines)
+    muts = sorted(set(m for r in runs for m in r.mutated_real))
+    oid = f"C19/pyvc/{FN}/frame.no-in-place-change-of-shared-tables"
+    if not muts:
+        rep.discharged_ob(oid, "pyvc")
+    else:
+        # replay on the real function: resolve -O3, then -O0, and compare with -O0 resolved first in a fresh interpreter state
+        import subprocess, sys as _sys, json as _json
+        code = ("import sys, json; sys.path.insert(0, %r); import nmfu; P = nmfu.ProgramData\n"
+                "def res(a):\n P._reset_flags() if hasattr(P, '_reset_flags') else None\n P.load_commandline_flags(a)\n return sorted(f.name for f, v in P._flags.items() if v)\n"
+                "first = res(['-O0', 'x.nmfu']); res(['-O3', 'x.nmfu']); again = res(['-O0', 'x.nmfu']); print(json.dumps([first, again]))") % common.REPO
+        try:
+            out = subprocess.run([_sys.executable, "-c", code], capture_output=True, text=True, timeout=60)
+            first, again = _json.loads(out.stdout.strip().splitlines()[-1])
+            differs = first != again
+            info = f"-O0 resolved first: {first}; -O0 resolved after -O3: {again}"
+        except Exception as e:
+            differs, info = False, f"replay failed: {type(e).__name__}"
+        rep.failed_ob(Finding(PROP, oid, f"frame|{muts[0][3]}" if differs else oid,
+                              f"the resolution step modifies a shared table in place ({'; '.join(m[3] + ' at line ' + str(m[1]) for m in muts[:3])}): later resolutions depend on earlier ones; real function: {info}",
+                              replay={"mutations": [list(m) for m in muts], "real": info, "args": [["-O0"], ["-O3"], ["-O0"]]}, replayed=differs))
     is_rt = lambda c: issubclass(c, RuntimeError)
     not_rt = lambda c: not issubclass(c, RuntimeError)
     for ri, r in enumerate(runs):
